@@ -401,3 +401,31 @@ def record_order(model, dec, fid, prop='C09', extra_fp=None):
                 if defined.get(('NO-FORMAT', ob), 10 ** 9) > pos:
                     out.append(V('%s.object_after_iflr' % prop, dict(fp, what='NO-FORMAT'), obj=ob))
     return out
+
+
+# ------------------------------------------------------------------------------ conjunction (C12, C17)
+
+def faithful(model, dec, fid, write_op, env_tz='UTC', data_file=None):
+    """All content oracles on one successfully written file: well-formed at every layer and equal to the specification.
+    -> list of (inner rule, fingerprint, detail) violations, each rule prefixed by the layer it comes from."""
+    from . import expect
+    out = []
+    for e in dec.errors:
+        out.append(V('undecodable.' + e.rule, {'layer': e.rule.split('.')[0]}, **e.detail))
+        if len(out) >= 3:
+            break
+    if out:
+        return out
+    mf = model.files[fid]
+    v, _ = layout(data_file, mf, prop='layout') if data_file is not None else ([], None)
+    out.extend(v)
+    out.extend(record_order(model, dec, fid, prop='order'))
+    v, _ = rows(model, dec, fid, write_op, prop='rows')
+    out.extend(v)
+    v, _ = payloads(model, dec, fid, prop='payloads')
+    out.extend(v)
+    v, _ = descriptors(model, dec, fid, write_op, prop='descriptors')
+    out.extend(v)
+    v, _ = expect.compare(model, dec, fid, env_tz=env_tz, prop='content')
+    out.extend(v)
+    return out
